@@ -310,7 +310,9 @@ def h5(ctx):
         b = ctx.facts.one(pat)
         ev, res = ctx.eval(b)
         VAL = ("param", 1, "value")
-        dropped = [e for e in res.log if e["kind"] == "drop" and not e["chain"] and e.get("value") == VAL]
+        # neither the argument nor a destination (`*ptr = value` drops what it takes to be the old value first - for a zero-sized type every value lives at that
+        # address, so the handle's value is destroyed at write time and again when the handle goes): no drop of a T anywhere in write
+        dropped = [e for e in res.log if e["kind"] == "drop" and not e["chain"] and (e.get("value") == VAL or e.get("ty") == "T")]
         yield Ob(key_of("C13-H5", b.path, "write-moves-the-value"), not dropped, "write never drops its argument (%d drop(s) of `value` found: a zero-sized value would be destroyed at write time and again by "
                  "the documented detach protocol)" % len(dropped), ctx.loc(dropped[0]) if dropped else b.loc())
     for hname in ("Owned", "RefMut"):
